@@ -49,6 +49,7 @@ var (
 	maxDepthSeen    int
 	copyOffBytesMax int
 	copyOffsetMax   uint64
+	bigBuildMs      int64
 )
 
 type seedRepo struct {
@@ -120,6 +121,19 @@ func run(c *vf.Ctx) {
 	nRepos := c.N(5, 14)
 	perRepo := c.N(13, 30)
 
+	// ---- the >16 MiB pair is built while the seed repositories are
+	type bigRes struct {
+		bp  *packlab.BigPair
+		err error
+	}
+	bigCh := make(chan bigRes, 1)
+	go func() {
+		t0 := time.Now()
+		bp, err := packlab.NewBigPair(g, filepath.Join(c.Scratch, "bigpair"), "sha1")
+		bigBuildMs = time.Since(t0).Milliseconds()
+		bigCh <- bigRes{bp, err}
+	}()
+
 	// ---- seed repositories
 	repos := make([]*seedRepo, nRepos)
 	vf.Parallel(nRepos, 5, func(i int) {
@@ -171,7 +185,9 @@ func run(c *vf.Ctx) {
 	// ---- a pair of blobs > 16 MiB, one stored as a delta of the other: copy offsets >= 2^24 (4 offset bytes)
 	var cases []*packCase
 	bigOK := false
-	if bp, err := packlab.NewBigPair(g, filepath.Join(c.Scratch, "bigpair"), "sha1"); err != nil {
+	defer func() { c.Extra("bigpair_build_ms_informational", bigBuildMs) }()
+	br := <-bigCh
+	if bp, err := br.bp, br.err; err != nil {
 		c.Broken("big pair repository: %v", err)
 		return
 	} else if !bp.Deltified {
@@ -186,8 +202,10 @@ func run(c *vf.Ctx) {
 		brp := &seedRepo{Repo: bp.Repo, truth: truth, idx: nRepos, huge: true}
 		// the pack git repack wrote (OFS_DELTA), and the same delta re-used as REF_DELTA
 		cases = append(cases,
-			&packCase{repo: brp, kind: "bigpair", window: 10, depth: 10, ofs: true, level: -1, pack: packlab.ReadFile(packlab.PackFiles(bp.GitDir)[0]), desc: "bigpair repack window=10 depth=10 (OFS_DELTA, copy offsets >= 2^24)"},
-			&packCase{repo: brp, kind: "bigpair", window: 10, depth: 10, ofs: false, level: -1})
+			&packCase{repo: brp, kind: "bigpair", window: 10, depth: 10, ofs: true, level: -1, pack: packlab.ReadFile(packlab.PackFiles(bp.GitDir)[0]), desc: "bigpair repack window=10 depth=10 (OFS_DELTA, copy offsets >= 2^24)"})
+		if !c.Quick() { // every mode moves 34 MiB: the REF_DELTA variant and the full mode matrix are thorough-only
+			cases = append(cases, &packCase{repo: brp, kind: "bigpair", window: 10, depth: 10, ofs: false, level: -1})
+		}
 	}
 	for _, rp := range repos {
 		r := c.Rand("cases", rp.idx)
@@ -248,7 +266,7 @@ func run(c *vf.Ctx) {
 	c.Floor("delta copy instructions with a 3-byte base offset (>= 64 KiB) present", c.Counter("deltas_with_copy_offset_of_3_or_more_bytes"), 1)
 	c.Floor("delta copy instructions of 0x10000 bytes present", c.Counter("delta_copy_ops_of_64KiB"), 1)
 	if bigOK {
-		c.Floor("packs whose deltas copy from base offsets >= 2^24 (4-byte copy offsets)", c.Counter("deltas_with_copy_offset_of_4_bytes"), 2)
+		c.Floor("packs whose deltas copy from base offsets >= 2^24 (4-byte copy offsets)", c.Counter("deltas_with_copy_offset_of_4_bytes"), c.N(1, 2))
 	} else {
 		c.Assume("git did not store the 17 MiB pair as a delta in this run: 4-byte copy offsets were not exercised (counted as bigdelta_skipped_git_did_not_deltify)")
 	}
@@ -626,6 +644,9 @@ func newFS(dir string, high bool, format string) *filesystem.Storage {
 
 func evalCase(c *vf.Ctx, g *gitx.Git, pc *packCase, i int) {
 	rp := pc.repo
+	if pc.kind == "bigpair" {
+		defer func(t0 time.Time) { c.Count("ms_bigpair_cases_informational", int(time.Since(t0).Milliseconds())) }(time.Now())
+	}
 	t00 := time.Now()
 	gv, err := gitIndex(c, g, pc, i)
 	c.Count("ms_git_oracle", int(time.Since(t00).Milliseconds()))
@@ -819,6 +840,10 @@ func evalCase(c *vf.Ctx, g *gitx.Git, pc *packCase, i int) {
 		modes = append(modes, pwMode)
 	}
 
+	if pc.kind == "bigpair" && c.Quick() {
+		// quick tier: the plain parser and the production path (PackfileWriter) only
+		modes = []mode{{"nostorage-seek", func() modeResult { return parseWith(bytes.NewReader(pc.pack), rp.Format, nil, false) }}, pwMode}
+	}
 	thinCompleted := false
 	for _, m := range modes {
 		var mr modeResult
